@@ -36,13 +36,16 @@ NOT_CLAIMED = {}
 def _load():
     import importlib.util, os, glob
     d = os.path.join(os.path.dirname(os.path.abspath(__file__)), "propcfg")
+    # a check is registered only after the main session has run it green on the unchanged tree (lib/verified.txt)
+    vf = os.path.join(os.path.dirname(os.path.abspath(__file__)), "verified.txt")
+    verified = set(open(vf).read().split()) if os.path.exists(vf) else set()
     for f in sorted(glob.glob(os.path.join(d, "C*.py"))):
         pid = os.path.basename(f)[:-3]
         spec = importlib.util.spec_from_file_location("propcfg_" + pid, f)
         m = importlib.util.module_from_spec(spec)
         spec.loader.exec_module(m)
-        if getattr(m, "CLAIMED", True):
-            PROPS[pid] = m.PROP
+        PROPS[pid] = m.PROP
+        if getattr(m, "CLAIMED", False) and pid in verified:
             META[pid] = m.META
         else:
             NOT_CLAIMED[pid] = getattr(m, "REASON", "not claimed")
